@@ -556,42 +556,86 @@ pub mod fs {
         r
     }
 
-    /// `std::fs::File` for the one call site that streams its output (`write_codable_file`).
+    pub fn copy<P: AsRef<Path>, Q: AsRef<Path>>(from: P, to: Q) -> io::Result<u64> {
+        let r = std::fs::copy(from.as_ref(), to.as_ref());
+        if in_sim() {
+            log_op("write", to.as_ref(), *r.as_ref().unwrap_or(&0), None, &unit(&r));
+        }
+        r
+    }
+
+    /// `std::fs::File` as the hooked call sites see it (`write_codable_file` streams its output
+    /// through one): the same API surface, with creation and writes logged and fault-injectable.
     pub struct File {
         inner: std::fs::File,
         path: std::path::PathBuf,
         short: Option<(u32, io::ErrorKind, String)>,
     }
 
+    fn open_logged(path: &Path, op: &str, mutating: bool, open: impl FnOnce() -> io::Result<std::fs::File>) -> io::Result<File> {
+        if !in_sim() {
+            return Ok(File { inner: open()?, path: path.to_path_buf(), short: None });
+        }
+        let mut short = None;
+        match next_out_fault(mutating) {
+            OutFault::Crash(_) => {
+                if mutating {
+                    let _ = open();
+                }
+                log_op(op, path, 0, Some("crash".into()), &Ok(()));
+                crash_now();
+            }
+            OutFault::Fail(e, name) => {
+                ctx::fired(&name);
+                let r: io::Result<()> = Err(e);
+                log_op(op, path, 0, Some(name), &r);
+                return Err(r.unwrap_err());
+            }
+            OutFault::Short(keep, e, name) => short = Some((keep, e.kind(), name)),
+            OutFault::None => {}
+        }
+        let r = open();
+        log_op(op, path, 0, None, &unit(&r));
+        Ok(File { inner: r?, path: path.to_path_buf(), short })
+    }
+
     impl File {
         pub fn create<P: AsRef<Path>>(path: P) -> io::Result<File> {
             let path = path.as_ref();
-            if !in_sim() {
-                return Ok(File { inner: std::fs::File::create(path)?, path: path.to_path_buf(), short: None });
-            }
-            let mut short = None;
-            match next_out_fault(true) {
-                OutFault::Crash(_) => {
-                    let _ = std::fs::File::create(path);
-                    log_op("create", path, 0, Some("crash".into()), &Ok(()));
-                    crash_now();
-                }
-                OutFault::Fail(e, name) => {
-                    ctx::fired(&name);
-                    let r: io::Result<()> = Err(e);
-                    log_op("create", path, 0, Some(name), &r);
-                    return Err(r.unwrap_err());
-                }
-                OutFault::Short(keep, e, name) => short = Some((keep, e.kind(), name)),
-                OutFault::None => {}
-            }
-            let r = std::fs::File::create(path);
-            log_op("create", path, 0, None, &unit(&r));
-            Ok(File { inner: r?, path: path.to_path_buf(), short })
+            open_logged(path, "create", true, || std::fs::File::create(path))
         }
-
-        pub fn open<P: AsRef<Path>>(path: P) -> io::Result<std::fs::File> {
-            std::fs::File::open(path)
+        pub fn create_new<P: AsRef<Path>>(path: P) -> io::Result<File> {
+            let path = path.as_ref();
+            open_logged(path, "create", true, || std::fs::File::create_new(path))
+        }
+        pub fn open<P: AsRef<Path>>(path: P) -> io::Result<File> {
+            let path = path.as_ref();
+            open_logged(path, "read", false, || std::fs::File::open(path))
+        }
+        pub fn options() -> OpenOptions {
+            OpenOptions::new()
+        }
+        pub fn metadata(&self) -> io::Result<std::fs::Metadata> {
+            self.inner.metadata()
+        }
+        pub fn set_len(&self, size: u64) -> io::Result<()> {
+            let r = self.inner.set_len(size);
+            if in_sim() {
+                log_op("fwrite", &self.path, size, None, &r);
+            }
+            r
+        }
+        pub fn sync_all(&self) -> io::Result<()> {
+            self.inner.sync_all()
+        }
+        pub fn sync_data(&self) -> io::Result<()> {
+            self.inner.sync_data()
+        }
+        pub fn set_modified(&self, time: std::time::SystemTime) -> io::Result<()> {
+            self.inner.set_modified(time)
+        }
+        pub fn set_permissions(&self, perm: std::fs::Permissions) -> io::Result<()> {
+            self.inner.set_permissions(perm)
         }
     }
 
@@ -606,11 +650,87 @@ pub mod fs {
                 return Err(r.unwrap_err());
             }
             let r = self.inner.write(buf);
-            log_op("fwrite", &self.path, *r.as_ref().unwrap_or(&0) as u64, None, &unit(&r));
+            if in_sim() {
+                log_op("fwrite", &self.path, *r.as_ref().unwrap_or(&0) as u64, None, &unit(&r));
+            }
             r
         }
         fn flush(&mut self) -> io::Result<()> {
             self.inner.flush()
+        }
+    }
+
+    impl io::Read for File {
+        fn read(&mut self, buf: &mut [u8]) -> io::Result<usize> {
+            self.inner.read(buf)
+        }
+    }
+
+    impl io::Seek for File {
+        fn seek(&mut self, pos: io::SeekFrom) -> io::Result<u64> {
+            self.inner.seek(pos)
+        }
+    }
+
+    /// `std::fs::OpenOptions` with the same builder surface; opening for writing is a mutating op.
+    #[derive(Clone, Debug)]
+    pub struct OpenOptions {
+        inner: std::fs::OpenOptions,
+        mutating: bool,
+        truncating: bool,
+        creating: bool,
+    }
+
+    impl Default for OpenOptions {
+        fn default() -> Self {
+            Self::new()
+        }
+    }
+
+    impl OpenOptions {
+        pub fn new() -> Self {
+            OpenOptions { inner: std::fs::OpenOptions::new(), mutating: false, truncating: false, creating: false }
+        }
+        pub fn read(&mut self, v: bool) -> &mut Self {
+            self.inner.read(v);
+            self
+        }
+        pub fn write(&mut self, v: bool) -> &mut Self {
+            self.inner.write(v);
+            self.mutating |= v;
+            self
+        }
+        pub fn append(&mut self, v: bool) -> &mut Self {
+            self.inner.append(v);
+            self.mutating |= v;
+            self
+        }
+        pub fn truncate(&mut self, v: bool) -> &mut Self {
+            self.inner.truncate(v);
+            self.mutating |= v;
+            self.truncating |= v;
+            self
+        }
+        pub fn create(&mut self, v: bool) -> &mut Self {
+            self.inner.create(v);
+            self.mutating |= v;
+            self.creating |= v;
+            self
+        }
+        pub fn create_new(&mut self, v: bool) -> &mut Self {
+            self.inner.create_new(v);
+            self.mutating |= v;
+            self.creating |= v;
+            self
+        }
+        pub fn open<P: AsRef<Path>>(&self, path: P) -> io::Result<File> {
+            let path = path.as_ref();
+            let inner = self.inner.clone();
+            // opening for writing changes the file by itself only when it truncates or creates it;
+            // otherwise the writes that follow are the mutation ("fwrite")
+            let changes_file = self.truncating || (self.creating && !path.exists());
+            let op = if changes_file { "create" } else if self.mutating { "open_w" } else { "read" };
+            open_logged(path, op, self.mutating, || inner.open(path))
         }
     }
 }
